@@ -983,3 +983,30 @@ class Forward:
 
     def __getattr__(self, name):
         return getattr(self.ck, name)
+
+
+def conditions_above(root, target):
+    """The `if` / source-level `match` nodes on the path from `root` down to `target` (identity), outermost first; None when `target`
+    is not below `root`.  Used for "this statement is executed unconditionally within that body"."""
+    from core import children, is_tracing
+
+    def rec(n, acc):
+        if n is target:
+            return acc
+        if isinstance(n, dict):
+            if is_tracing(n):
+                return None
+            nxt = acc
+            if n.get("k") == "if" or (n.get("k") == "match" and str(n.get("src", "")).startswith("Normal")):
+                nxt = acc + [n]
+            for c in children(n):
+                r = rec(c, nxt)
+                if r is not None:
+                    return r
+        elif isinstance(n, list):
+            for c in n:
+                r = rec(c, acc)
+                if r is not None:
+                    return r
+        return None
+    return rec(root, [])
